@@ -11,8 +11,8 @@ import (
 
 // MapRange is one `range` statement over a map and its classification.
 type MapRange struct {
-	Fn     *Func
-	Stmt   *ast.RangeStmt
+	Fn      *Func
+	Stmt    *ast.RangeStmt
 	Class   string // commutative | collected-then-sorted | single-entry | order-sensitive
 	Reason  string
 	Reasons []string // the individual order-sensitive findings
@@ -383,12 +383,67 @@ func sortedAfter(f *Func, rs *ast.RangeStmt, o types.Object) bool {
 			return true
 		}
 		root := RootIdent(call.Args[0])
-		if root != nil && ObjOf(info, root) == o {
+		if root != nil && ObjOf(info, root) == o && unconditionalAfter(f, rs, call, o) {
 			found = true
 		}
 		return true
 	})
 	return found
+}
+
+// unconditionalAfter reports whether call, which follows rs, runs whenever
+// control leaves rs normally: none of its ancestors that do not also enclose rs
+// is a branch or a loop, except a guard `if len(o) > 0|> 1|>= 1|>= 2|!= 0` (a
+// slice of fewer than two elements is sorted already).
+func unconditionalAfter(f *Func, rs *ast.RangeStmt, call *ast.CallExpr, o types.Object) bool {
+	info := f.Pkg.TypesInfo
+	parent := ParentMap(f.Decl.Body)
+	for n := parent[call]; n != nil; n = parent[n] {
+		if n.Pos() <= rs.Pos() && rs.End() <= n.End() {
+			return true // common ancestor reached
+		}
+		switch x := n.(type) {
+		case *ast.IfStmt:
+			if !trivialLenGuard(info, x.Cond, o) || x.Else != nil {
+				return false
+			}
+		case *ast.ForStmt, *ast.RangeStmt, *ast.SwitchStmt, *ast.TypeSwitchStmt, *ast.SelectStmt, *ast.FuncLit, *ast.CaseClause:
+			return false
+		}
+	}
+	return true
+}
+
+func trivialLenGuard(info *types.Info, cond ast.Expr, o types.Object) bool {
+	b, ok := ast.Unparen(cond).(*ast.BinaryExpr)
+	if !ok {
+		return false
+	}
+	call, ok := b.X.(*ast.CallExpr)
+	if !ok || len(call.Args) != 1 {
+		return false
+	}
+	if id, ok := call.Fun.(*ast.Ident); !ok || id.Name != "len" {
+		return false
+	}
+	root := RootIdent(call.Args[0])
+	if root == nil || ObjOf(info, root) != o {
+		return false
+	}
+	tv, ok := info.Types[b.Y]
+	if !ok || tv.Value == nil {
+		return false
+	}
+	v := tv.Value.ExactString()
+	switch b.Op {
+	case token.GTR:
+		return v == "0" || v == "1"
+	case token.GEQ:
+		return v == "1" || v == "2"
+	case token.NEQ:
+		return v == "0"
+	}
+	return false
 }
 
 // SortCall is a call of sort.Slice-like functions with a comparator literal.
